@@ -1879,7 +1879,7 @@ def gen_c06(r, tier="quick", c07=False):
             del sp["exprs"][g]
         sp["expr_order"] = sorted(sp["exprs"])
     else:
-        sp, meta = gen_pool(r, kinds=kinds, nobj=3, ncon=5, int_frac=r.choice([0.0, 0.0, 0.0, 0.35]), layout=r.choice(["A", "B", "C", "D", "E", "G", "G"]) if c07 else (r.choice(["D", "D", "G"]) if r.random() < 0.25 else None))
+        sp, meta = gen_pool(r, kinds=kinds, nobj=3, ncon=5, int_frac=r.choice([0.0, 0.0, 0.35]), layout=r.choice(["A", "B", "C", "D", "E", "G", "G"]) if c07 else (r.choice(["D", "D", "G"]) if r.random() < 0.25 else None))
     inf = r.random() < (0.2 if c07 else 0.4)
     if inf:
         make_infeasible(r, sp)
@@ -1926,9 +1926,9 @@ def gen_c06(r, tier="quick", c07=False):
             b = {"method": a["method"], "fault": {"site": "compile", "k": r.choice([1, 2, 3, 4, 5, 7]), "exc": r.choice(["MemoryError", "RecursionError", "ValueError"])}}
             ops.append(["solve", 0, b])  # the first attempt dies while building its caches; then the retry
         ops.append(["solve", 0, a])
-        if r.random() < 0.12:
+        if r.random() < 0.2:
             # the user looks at the model and solves it again, nothing else: looking changes nothing
-            ops.append([r.choice(["summary", "summary", "repr", "read_variables", "read_bounds"]), 0])
+            ops.append([r.choice(["summary", "summary", "summary", "repr", "read_variables", "read_bounds"]), 0])
             ops.append(["solve", 0, cap_iterations(r, {"method": r.choice(["SLSQP", "trust-constr", "auto", method])})])
         k = r.random()
         if k < 0.15:
@@ -1967,7 +1967,37 @@ def gen_c06(r, tier="quick", c07=False):
     return {"knobs": knobs, "ops": ops}
 
 
+def gen_c07_deep_lp(r):
+    """A linear objective with a constant term, written as a 1100-1500 term running sum: it can be
+    analysed only inside increased_recursion_limit; the solve is then repeated outside the with-block
+    (after a bound edit, or as it is) -- whatever is cached by then, a reported objective value must
+    still be the objective at the reported point."""
+    from .world import DEFAULT_KNOBS
+
+    n = r.choice([1100, 1300, 1500])
+    k0 = r.choice([1000.0, -250.0, 12.5])
+    terms = [["vel", "v", 0], ["*", ["num", r.choice([2.0, 0.5, -1.0])], ["vel", "v", 1]], ["var", "x"], ["num", k0]]
+    sp = {"name": "dlp", "vars": [{"kind": "vector", "name": "v", "n": 2, "lb": 0.0, "ub": 4.0, "domain": "continuous"},
+                                   {"kind": "scalar", "name": "x", "lb": 0.0, "ub": 3.0, "domain": "continuous"}],
+          "params": [],
+          "exprs": {"o": ["chain", "+", terms + [["num", 0.0]] * n]},
+          "cons": {"c": {"k": "s", "lhs": ["+", ["vel", "v", 0], ["vel", "v", 1]], "sense": ">=", "rhs": ["num", 2.5]}},
+          "expr_order": ["o"], "con_order": ["c"]}
+    lim = r.choice([20000, 30000])
+    lpm = ["auto", "linprog", "highs-ds"]
+    ops = [["new_model", 0, sp], [r.choice(["minimize", "maximize"]), 0, "o"], ["subject_to", 0, "c"],
+           ["with_reclimit", lim, ["solve", 0, {"method": r.choice(lpm)}]]]
+    if r.random() < 0.5:
+        ops.append(["set_ub", 0, r.choice(["x", "v[0]", "v[1]"]), r.choice([2.0, 2.5, 5.0])])
+    ops.append(["solve", 0, {"method": r.choice(lpm)}])
+    if r.random() < 0.5:
+        ops.append(["with_reclimit", lim, ["solve", 0, {"method": r.choice(lpm + ["SLSQP"]), "maxiter": 50}]])
+    return {"knobs": dict(DEFAULT_KNOBS), "ops": ops}
+
+
 def gen_c07(r, tier="quick"):
+    if r.random() < 0.02:
+        return gen_c07_deep_lp(r)
     return gen_c06(r, tier, c07=True)
 
 
